@@ -25,6 +25,8 @@ CLAUSE = CLAUSE + (" In vbi_proxy_queue_allocate a count taken by walking the fr
                    "and incremented right after a buffer is added; the byte offsets of the message I/O state (writeOff, readOff) are "
                    "added to byte pointers only.")
 CLAUSE = CLAUSE + (" The assertion on a freshly captured frame admits line_count == max_lines (the buffer's capacity).")
+CLAUSE = CLAUSE + (" vbi_proxyd_send_sliced decides the message form from the client's own service set only; the message length "
+                   "is taken from the header under readOff >= sizeof (header), the accumulated offset.")
 NOT_DECIDED = ("exactly-once / in-order delivery, timing, device open/close sequencing, that a stalled client loses only its own "
                "frames (schedule-dependent behaviour); the main loop's unlocked *reads* of its clients' cursors and queued frames "
                "(vbi_proxyd_send_sliced, _handle_client_sockets, _get_fd_set) are a formal data race with the acquisition thread's "
@@ -192,6 +194,8 @@ def run(ctx, run):
     _count_follows_list(ctx, run)
     _byte_offsets_on_byte_pointers(ctx, run)
     _full_frame_admitted(ctx, run)
+    _served_by_own_services(ctx, run)
+    _header_complete_by_offset(ctx, run)
     from .. import sweep
     sweep.run(ctx, run, ["src/proxy-client.c"], {}, 10)
 
@@ -703,3 +707,64 @@ def _full_frame_admitted(ctx, run):
                               "that fills the device range (all lines decoded; the single line of a WSS-only client) aborts the "
                               "daemon and disconnects every client" % a.rel, ex.loc(f, i))
     run.floor("capacity assertions on a captured frame", n, 1)
+
+
+def _served_by_own_services(ctx, run):
+    """RF-WHO: what a client is sent - sliced lines or the raw image, and which lines - is decided
+    by that client's own service set (req->all_services / req->services).  The device's union
+    (proxy.dev[].all_services) says what is *captured*; deciding the message form from it sends a
+    sliced-only client the raw-format indication as soon as some other client asks for raw data,
+    and the client library drops the connection."""
+    P = ctx.prog
+    f = P.need("vbi_proxyd_send_sliced", UNIT)
+    run.touch(f)
+    n = 0
+    bad = []
+    pos = flow.elem_pos(f)
+    for i, e in enumerate(f.exprs):
+        if e["k"] != "mem" or e["member"] != "all_services" or pos.get(i) is None:
+            continue
+        n += 1
+        if e.get("in") not in ("PROXY_CLNT_s", "PROXY_CLNT"):
+            bad.append(i)
+    key = "RF-WHO:vbi_proxyd_send_sliced:own-services"
+    if bad:
+        run.violation("RF-WHO", key, "vbi_proxyd_send_sliced() reads `%s` (the device's union of services) to decide what this "
+                      "client is sent: with a raw-VBI client on the same device a sliced-only client receives raw-format "
+                      "indications instead of its lines" % ex.pretty(f, bad[0])[:50], ex.loc(f, bad[0]))
+    else:
+        run.holds("RF-WHO", key, "%d reads of all_services, all of the client's own record" % n, "%s:%d" % (f.file, f.line))
+    run.floor("service set reads in vbi_proxyd_send_sliced", n, 2)
+
+
+def _header_complete_by_offset(ctx, run):
+    """RF-DOM: a message may arrive in any number of pieces.  vbi_proxy_msg_handle_read() takes
+    the message length from the header once the *accumulated* offset readOff has reached the
+    header size - not once a single recv() returned that much: a header that arrives as 3 + 5
+    bytes would never be recognised, readLen stays 0 and the connection starves (seen by the
+    daemon and by the client library alike)."""
+    P = ctx.prog
+    f = P.need("vbi_proxy_msg_handle_read", "src/proxy-msg.c")
+    run.touch(f)
+    n = 0
+    for bid, i in flow.all_events(f):
+        for lhs, var, op, rhs in flow.stores(f, i):
+            if lhs is None or op != "=" or rhs is None:
+                continue
+            l = f.exprs[ex.skip(f, lhs)]
+            if not (l["k"] == "mem" and l["member"] == "readLen"):
+                continue
+            if not any(f.exprs[j]["k"] == "call" and f.exprs[j].get("callee") in ("ntohl", "__bswap_32", "__builtin_bswap32")
+                       for j in ex.walk(f, rhs)) and "head" not in ex.pretty(f, rhs):
+                continue
+            n += 1
+            ats = atoms.atoms_at(f, i)
+            ok = any(a.rel in (">=", ">") and a.L.has("VBIPROXY_MSG_STATE.readOff") and a.R is not None and a.R.const is not None for a in ats)
+            key = "RF-DOM:vbi_proxy_msg_handle_read:header-complete"
+            if ok:
+                run.holds("RF-DOM", key, "`%s` under readOff >= sizeof (header)" % ex.pretty(f, i)[:50], ex.loc(f, i))
+            else:
+                run.violation("RF-DOM", key, "`%s` is not guarded by the accumulated offset (readOff >= sizeof header): a header "
+                              "delivered in two pieces is never completed, the message length stays unknown and the peer gets no "
+                              "answer" % ex.pretty(f, i)[:50], ex.loc(f, i), witness={"dominating": [repr(a) for a in ats][:6]})
+    run.floor("stores of the message length taken from the header", n, 1)
